@@ -70,7 +70,8 @@ pub fn spawn(
                 Cmd::Dispatch(j) => {
                     let job = shared.jobs.lock().unwrap_or_else(|e| e.into_inner())[j].take();
                     let Some(job) = job else {
-                        sess.ret(d, j, Ret::Panicked("harness: job object not available".into()));
+                        sess.call(d, j);
+                        sess.ret(d, j, Ret::Unavailable);
                         continue;
                     };
                     sess.call(d, j);
